@@ -21,11 +21,18 @@ pub struct AliasModel {
     pub empty_topic_sent: u64,
     pub empty_topic_received: u64,
     pub disturbances: u64,
+    pub local_publish_connected: u64,
+    pub local_use_connected: u64,
+    pub local_use_accepted: u64,
+    pub local_publish_with_send_alias_max: u64,
+    pub steps: u64,
+    pub steps_connected: u64,
+    pub error_disconnects: std::collections::BTreeMap<String, u64>,
 }
 
 impl AliasModel {
     pub fn new() -> AliasModel {
-        AliasModel { t: BTreeMap::new(), app_bind: BTreeMap::new(), r: BTreeMap::new(), intended: BTreeMap::new(), conn_seq: 0, empty_topic_sent: 0, empty_topic_received: 0, disturbances: 0 }
+        AliasModel { t: BTreeMap::new(), app_bind: BTreeMap::new(), r: BTreeMap::new(), intended: BTreeMap::new(), conn_seq: 0, empty_topic_sent: 0, empty_topic_received: 0, disturbances: 0, local_publish_connected: 0, local_use_connected: 0, local_use_accepted: 0, local_publish_with_send_alias_max: 0, steps: 0, steps_connected: 0, error_disconnects: Default::default() }
     }
     fn new_connection(&mut self) {
         if !self.t.is_empty() || !self.r.is_empty() {
@@ -50,6 +57,14 @@ impl Observer for AliasModel {
         if t.v != Some(V::V5) {
             return Ok(());
         }
+        self.steps += 1;
+        if pre.status == St::Connected {
+            self.steps_connected += 1;
+            if t.status != St::Connected {
+                let why = format!("{} -> {:?}", match &st.call { Call::Send(ap) => format!("send {}", ap.kind_name()), Call::Recv { ap: Some(ap), .. } => format!("recv {}", ap.kind_name()), Call::Closed => "closed".into(), _ => "other".into() }, st.errors());
+                *self.error_disconnects.entry(why).or_insert(0) += 1;
+            }
+        }
         if t.conn_seq != self.conn_seq {
             self.conn_seq = t.conn_seq;
             self.new_connection();
@@ -67,6 +82,18 @@ impl Observer for AliasModel {
             this_intended = Some((payload.clone(), intent.clone()));
             if let Some(it) = &intent {
                 self.intended.insert(payload.clone(), it.clone());
+            }
+            if pre.status == St::Connected {
+                self.local_publish_connected += 1;
+                if pre.send_alias_max > 0 {
+                    self.local_publish_with_send_alias_max += 1;
+                }
+                if topic.is_empty() {
+                    self.local_use_connected += 1;
+                    if !st.has_error() {
+                        self.local_use_accepted += 1;
+                    }
+                }
             }
             if st.has_error() {
                 self.disturbances += 1;
@@ -246,6 +273,7 @@ pub fn profile() -> Profile {
     p.rm_small = true;
     p.max_segments = 3;
     p.max_body = 35;
+    p.alias_heavy = true;
     p
 }
 
@@ -259,6 +287,14 @@ pub fn test(h: &History, st: &mut Stats) -> R {
     let (_w, out, r) = run_history(h, &mut [&mut m]);
     count_outcome(&out, st);
     r?;
+    st.count("steps", m.steps);
+    st.count("steps_while_connected", m.steps_connected);
+    if std::env::var("VERIF_DEBUG_C13").is_ok() { for (k, v) in &m.error_disconnects { st.count(&format!("end: {k}"), *v); } }
+    st.count("local_publishes_while_connected", m.local_publish_connected);
+    st.count("local_publishes_with_peer_topic_alias_maximum_gt_0", m.local_publish_with_send_alias_max);
+    st.count("local_alias_use_publishes_while_connected", m.local_use_connected);
+    st.count("local_alias_use_publishes_accepted", m.local_use_accepted);
+    st.count("empty_topic_publishes_requested_for_sending", m.empty_topic_sent);
     if (m.empty_topic_sent + m.empty_topic_received) > 0 && m.disturbances > 0 {
         st.nontrivial(&(h.cfg, &h.ops));
         if m.empty_topic_sent > 0 {
@@ -278,7 +314,7 @@ pub fn run(ctx: &Ctx) -> Report {
          (Receive Maximum mostly 1..3, packet size, not connected), LRU pressure, closes/reconnects, stored packets, regulate_for_store; inbound binds/uses in and out of range before/after reconnect. \
          Oracle: independent receiver table per connection. non-trivial = an empty-topic publish was emitted or received after a rebind, refusal or reconnect",
     );
-    let n = ctx.tier.pick(150_000, 2_000_000);
+    let n = ctx.tier.pick(400_000, 2_000_000);
     let (st, v) = search(ctx, "c13.history", n, strategy, test);
     rep.absorb("histories", st, v, false);
     rep.assumptions.push("the intended topic of a manual (\"\", a) publish is the topic of the application's last ACCEPTED bind of a on this connection".into());
